@@ -16,7 +16,7 @@ func init() {
 			"the estimate that is not proved <= the old estimate lies only on paths that established 'not app-limited' with the property's own comparator: 2 x inFlight >= " +
 			"estimate for the delay-based algorithms (equivalently inFlight >= estimate/2), inFlight >= limit for AIMD, both operands being the in-flight parameter of the sample " +
 			"and the current estimate; (O2) no computed update is discarded: every path that evaluates the value destined for the estimate also stores it (a structural " +
-			"necessary condition of 'no reachable state is stuck'); (O3) the clamp of every stored estimate (C04/O1) and (O4) the positivity of the default step tables, both of which the gate / recovery arguments take as given.",
+			"necessary condition of 'no reachable state is stuck'); (O3) the clamp of every stored estimate (C04/O1) and (O4) the positivity of the default step tables, both of which the gate / recovery arguments take as given; (O5) a saturated drop-free sample moves the estimate unless one measured quantity was bounded from both sides, and may leave before the gate only on input validation (parameters against constants), not on a test of remembered state; (O6) probing (C15/O4); (O7) AIMD never lowers its estimate on a drop-free sample.",
 	})
 }
 
